@@ -2,6 +2,7 @@ import PyamgV.Proofs.C16Bridge
 import PyamgV.Proofs.C16Spec
 import PyamgV.Proofs.C06CRat
 import PyamgV.Proofs.ExtComplexGs
+import PyamgV.Proofs.CRatStar
 import PyamgV.Driver.C16
 import Mathlib.LinearAlgebra.Matrix.ConjTranspose
 import Mathlib.Analysis.Complex.Basic
@@ -225,16 +226,6 @@ end PyamgV.C16X
 namespace PyamgV.CRat
 
 /-! `Field CRat` (with the division of `Model/CRat.lean`) comes from `Proofs/ExtComplexGs.lean` -/
-
-instance : StarRing CRat where
-  star := conj
-  star_involutive a := by apply ext' <;> simp [conj]
-  star_mul a b := by apply ext' <;> simp [conj] <;> ring
-  star_add a b := by apply ext' <;> simp [conj]; ring
-
-theorem star_eq_conj : (star : CRat → CRat) = conj := rfl
-@[simp] theorem star_re (a : CRat) : (star a).re = a.re := rfl
-@[simp] theorem star_im (a : CRat) : (star a).im = -a.im := rfl
 
 end PyamgV.CRat
 
